@@ -43,6 +43,8 @@ func checkC02(c *Ctx, r *Report) {
 	headerWritten(c, r, "C02.R5.header-written", "PackRR of a record without RDATA (accepted from the wire with RDLENGTH 0) at the end of a buffer reports success, overwrites the last two octets of the previous record, and panics with a slice bound of -2 on a buffer shorter than two octets")
 	r.rule("C02.R5.repack-bounds", 80, "every index / slice on the buffer and on text in the packers (Msg.PackBuffer, PackRR and what they reach) is entailed in bounds; the name packer's compaction arithmetic and the constructs listed in the notes are not decided")
 	boundsRuleFor(c, r, "C02.R5.repack-bounds", []string{"Msg.PackBuffer", "PackRR"}, true, repackSkip, "re-packing a record the decoder accepted, into a caller's buffer of any size, can panic instead of returning an error", nil, repackExempt)
+	pointerRoom(c, r, "C02.R5.pointer-room", "re-packing decoded records with PackRR into a buffer that ends right behind a pointer position panics (index out of range) instead of returning ErrBuf")
+	noPrefixCopy(c, r, "C02.R2.no-prefix-copy", fns)
 }
 
 func c02R1(c *Ctx, r *Report) {
